@@ -952,7 +952,7 @@ macro_rules! impl_tryfrom { ($($type:ty),+) => {
                     Err(ConvertionError::NotEnoughCapacity)
                 }
                 else {
-                    Ok(IArray::get_int(bv, 0).unwrap())
+                    Ok(IArray::get_int(bv, 0).unwrap_or(0))
                 }
             }
         }
